@@ -92,7 +92,8 @@ class Prop(PropBase):
         if sh.isscalar:
             sh = sh[None]
         ix = (slice(None),) * sh.ndim + (None,) * (z.ndim - sh.ndim - 1)
-        ft = (sh[ix] * z.dt).to_value(u.one)
+        dt_own = (1 / (case["rate"] * u.Hz)).to(u.s)       # (not the library's z.dt: the sample period is part of what is checked)
+        ft = (sh[ix] * dt_own).to_value(u.one)
         return q, np.asarray(ft * N, dtype=float), np.asarray(ft, dtype=float)
 
     def run_code(self, case):
